@@ -723,6 +723,10 @@ func checkOneTime(c *km.Ctx, s *km.Sem, upd *ssa.Function, isAuthUser func(ssa.V
 				}
 			}
 			r.Add("R-C05-4", km.FuncName(fn), "store used TOTP step", posOf(c, in), "the stored step is the value the replay test compares against, and it is saved", sprintf("same value=%v saved afterwards=%v", same, followed), same && followed)
+			// the step is the period the code belongs to - the time divided by the period, rounded down: a step
+			// rounded to the nearest period changes half-way through the life of a code, which can then be replayed
+			floorOK, why := totpStepIsFloor(st.Val, 0)
+			r.Add("R-C05-4", km.FuncName(fn), "TOTP step of the presented code", posOf(c, in), "time.Unix() / period rounded down (never rounded to the nearest period)", why, floorOK)
 		})
 		if nStore == 0 {
 			r.AnchorLost("R-C05-4", "store of LastSuccessfullTOTPCounter")
@@ -948,4 +952,52 @@ func checkChallengeFresh(c *km.Ctx, rule string) {
 	if n == 0 {
 		c.R.AnchorLost(rule, "stores into the pending challenge table")
 	}
+}
+
+// totpStepIsFloor: v is computed from Unix() of a time parameter (possibly truncated) by division, conversions and
+// math.Floor only.
+func totpStepIsFloor(v ssa.Value, depth int) (bool, string) {
+	if depth > 8 {
+		return false, "too deep"
+	}
+	v = km.Unwrap(v)
+	switch x := v.(type) {
+	case *ssa.Const:
+		return true, "constant"
+	case *ssa.Convert:
+		return totpStepIsFloor(x.X, depth+1)
+	case *ssa.BinOp:
+		if x.Op != token.QUO && x.Op != token.MUL {
+			return false, "operator " + x.Op.String()
+		}
+		if ok, why := totpStepIsFloor(x.X, depth+1); !ok {
+			return false, why
+		}
+		return totpStepIsFloor(x.Y, depth+1)
+	case *ssa.Call:
+		switch n := km.CalleeFull(x.Common()); n {
+		case "math.Floor":
+			return totpStepIsFloor(x.Common().Args[0], depth+1)
+		case "(time.Time).Unix":
+			r := km.Unwrap(x.Common().Args[0])
+			for i := 0; i < 3; i++ {
+				if cl, ok := r.(*ssa.Call); ok {
+					switch km.CalleeFull(cl.Common()) {
+					case "(time.Time).Truncate", "(time.Time).UTC":
+						r = km.Unwrap(cl.Common().Args[0])
+						continue
+					}
+					return false, "time derived through " + short(km.CalleeFull(cl.Common()))
+				}
+				break
+			}
+			if _, isP := km.CellOrigin(r).(*ssa.Parameter); isP {
+				return true, "floor(t.Unix() / period)"
+			}
+			return false, "time value " + km.ValStr(r)
+		default:
+			return false, "call of " + short(n)
+		}
+	}
+	return false, km.ValStr(v)
 }
